@@ -144,7 +144,10 @@ pub struct Scen {
 pub fn configs(thorough: bool) -> Vec<(String, CircuitConfig)> {
     let lat = config_lattice(2);
     let pick: Vec<&str> =
-        if thorough { vec!["std", "routed25", "wires234_routed136", "chal1", "chal3", "qdf7"] } else { vec!["std"] };
+        // wires143_routed100: with 100 routed wires (33 table slots, 50 lookup slots, 8 partial polynomials of 7 / 5
+        // slots) the LAST partial polynomial has no table slots at all - the chunking of the running Sum and of
+        // the LDC over the partial polynomials ends at different polynomials (quick: a light scenario set)
+        if thorough { vec!["std", "routed25", "wires234_routed136", "chal1", "chal3", "qdf7", "wires143_routed100"] } else { vec!["std", "wires143_routed100"] };
     pick.iter().map(|n| lat.iter().find(|(m, _)| m == n).expect("config").clone()).collect()
 }
 
@@ -174,6 +177,21 @@ pub fn scenarios(cfgs: &[(String, CircuitConfig)], thorough: bool) -> Vec<Scen> 
             let (prog, input) = make_prog(&name, tables, &lus);
             out.push(Scen { name, kind: kind.to_string(), cfg: ci, prog, input, neg, dup_inputs: false, expect_unused: false });
         };
+        if !thorough && !main_cfg {
+            // light set for the second quick configuration
+            for &(n, k, neg) in &[(2usize, 1usize, true), (l + 1, s + 1, true), (l, s, false), (2 * l + 1, 2, false)] {
+                let lus: Vec<Lu> = (0..k).map(|j| Lu { t: 0, e: arrange("cyc", j, n), src: Src::Wit }).collect();
+                push(&mut out, "1t-bnd-cyc", format!("n{n}-k{k}"), vec![table("bnd", n, 0)], lus, neg);
+            }
+            let tables = vec![table("sh0", l + 1, 0), table("sh1", 2, 0)];
+            let mut lus = Vec::new();
+            for j in 0..2 {
+                lus.push(Lu { t: 0, e: arrange("cyc", j, l + 1), src: Src::Wit });
+                lus.push(Lu { t: 1, e: arrange("unused", j, 2), src: Src::Wit });
+            }
+            push(&mut out, "2t-sameins-il", format!("n{}+2-k2+2", l + 1), tables, lus, true);
+            continue;
+        }
         // --- one table: size x family x count x arrangement, inputs from witness inputs
         for &n in &sizes {
             for fam in &fams {
